@@ -4,6 +4,7 @@ import Mimium.Proofs.CstPrintRender
 import Mimium.Proofs.CstPrintLeading
 import Mimium.Model.CstGrammar
 import Mimium.Proofs.LowerFront
+import Mimium.Proofs.CstShapeMain
 /-!
 # C14 — The formatter never changes a program, loses no comment, and is idempotent
 
@@ -40,9 +41,15 @@ in `Model/Pretty.lean` and tied to the crate by exact comparison on random docum
   `C14_paren_type_in_tuple_type_kept`, `C14_first_line_comment_once` (`decide +kernel` on the real token kinds; the same texts are in
   `corpus/C14/` and run first in every check).  `C14_file_leading_comments_are_the_unattached`: the comment block `pretty_print` writes
   in front of the document is, for every token list, exactly the set of comments `preparse` attaches to no token (nothing is printed
-  twice, nothing is printed in neither place).  NOT proved: that every
-  error-free parse tree without these shapes is in `keepsAll` (evaluated by the driver on every text of the run instead), and the
-  re-tokenisation of the output (no two printed tokens merge) — hence `_partial`.
+  twice, nothing is printed in neither place).
+* `C14_parsed_trees_keep_all` (shape invariant of the ported PARSER, `Proofs/CstShape*.lean`): for every token list, if `parse_cst`
+  records no error and the tree has none of the lenient shapes (`strictTree`), the tree is in `keepsAll` — all 52 node kinds.  Hence
+  `C14_format_content_parsed`, `C14_no_comment_lost_parsed` (every comment attached to a token is in the document once, in order),
+  `C14_token_sequence_preserved_parsed_partial`, without a class hypothesis.  `C14_lenient_shapes_lose_content`: the hypothesis
+  `strictTree` is needed — for `fn f(a,, /* c */ b)`, `|a,, /* c */| a`, `if (x) y = 2.0`, `g!(x = 1.0)` the parser records no error
+  and the printer drops a comment / tokens or adds a comma (open findings C14-stray-comma, -assign-in-if, -assign-in-macro-arg).
+  NOT proved: the re-tokenisation of the output (no two printed tokens merge; the separator facts), the comma accounting (`norm`
+  erases commas on both sides), idempotence — hence the remaining `_partial` names.
 * `C14_same_tokens_same_ast` (real grammar `Model/CstGrammar.lean` + real lowering `Model/Lower.lean`, both literal ports tied by
   exact correspondence in C13 / C16): an output that keeps the syntax tokens (kinds and texts, in order), the answers of the
   line-break oracle and token adjacency parses and lowers to THE SAME `Program` (AST and span terms) as the input — so the "same
@@ -362,6 +369,124 @@ theorem C14_first_line_comment_once :
        .Whitespace, .Int, .Eof] [4, 1, 7, 1, 3, 1, 1, 1, 1, 1, 1, 0] =
      (0, true, [.idx 2, .idx 4, .idx 6, .idx 8, .idx 10], [.idx 2, .idx 4, .idx 6, .idx 8, .idx 10])) := by
   decide +kernel
+
+/-! ### Goal 1: every tree the ported PARSER builds for an error-free text is in the class (shape invariant of `Model/CstGrammar.lean`) -/
+
+/-- `strictTree` of the tree the ported parser builds for a token list -/
+def strictOf (ks : List Kind) (ws : List Nat) : Bool :=
+  match (Grammar.parseTokens ks ws).b.root with
+  | some g => strictTree ⟨ks.toArray, Preparse.preparse ks⟩ g
+  | none => false
+
+/-- PARSED TREES KEEP ALL.  For EVERY token list: if the ported `parse_cst` records no error and the tree `g` it returns has none of
+the lenient shapes (`strictTree`, `Model/CstStrict.lean`: a comma that follows no parameter, an assignment as if-condition / then-branch /
+macro argument — for these the statement is FALSE, `C14_lenient_shapes_lose_content`), then `g` is in the class `keepsAll`: at every
+node, of every kind, the printer's loop passes its `ok` test at every child.  Proof: a shape invariant of the parser — for each of the
+73 grammar functions what it appends to the open node when no error is recorded (`Grammar.Rs`: "`parse_expr`: one node, or two for an
+assignment", "the comma loops: `(, item)* ,?`", "`parse_type`: a node, or `( T )` with the parentheses as children of the parent",
+"the postfix / infix loops replace the last child by a node that starts at the marker", …) — proved ONCE over the command language of
+`Model/CstGrammar.lean` (`Grammar.em_sound`, one induction over `Cmd` like `exec_good`; then one verification condition per function
+body, `Grammar.vc_all`, and one obligation per `emit_node` of a kind with an `ok` test, `Grammar.nok_all`), then per printer loop
+"shape ⇒ the tests hold" (`listShape_ok`, `blockShape_ok`, `letShape_ok`, `ifShape_ok`, `binShape_ok`, `lamShape_ok`, `recShape_ok`,
+`macShape_ok`, `useShape_ok`, `umShape_ok`, `qpShape_ok`).  All 52 node kinds; all inputs; fuel = `fuelBound` (complete by C04). -/
+theorem C14_parsed_trees_keep_all (ks : List Kind) (widths : List Nat) (hw : widths.length = ks.length) (g : Green)
+    (herr : (Grammar.parseTokens ks widths).errs = []) (hg : (Grammar.parseTokens ks widths).b.root = some g)
+    (hs : strictTree ⟨ks.toArray, Preparse.preparse ks⟩ g = true) :
+    keepsAll ⟨ks.toArray, Preparse.preparse ks⟩ g = true := by
+  have hoof := (Grammar.parse_fuel (Grammar.mkEnv ks widths (Preparse.preparse ks)) ks.toArray
+    (Grammar.fuelBound (Preparse.preparse ks).tokenIndices.length) (by simp [Grammar.len, Grammar.mkEnv])).2
+  obtain ⟨g', hg', hka⟩ := Grammar.parse_keeps (c := ⟨ks.toArray, Preparse.preparse ks⟩) ks.toArray _
+    (Grammar.mkEnv_ok ks widths hw) (Grammar.mkEnv_kindsOk ks widths) rfl herr hoof
+  have : g' = g := Option.some.inj (hg'.symm.trans hg)
+  subst this
+  rw [← keepsAllOn_all]
+  exact hka hs
+
+/-- … so the content theorem holds for parsed texts without a class hypothesis: the normalised text leaves of the document are the
+tokens of the tree in order, each between its comments -/
+theorem C14_format_content_parsed (ks : List Kind) (widths : List Nat) (hw : widths.length = ks.length) (g : Green)
+    (herr : (Grammar.parseTokens ks widths).errs = []) (hg : (Grammar.parseTokens ks widths).b.root = some g)
+    (hs : strictTree ⟨ks.toArray, Preparse.preparse ks⟩ g = true) :
+    content ⟨ks.toArray, Preparse.preparse ks⟩ (formatS ks (Preparse.preparse ks) g) = expected ⟨ks.toArray, Preparse.preparse ks⟩ g :=
+  C14_format_content_doc ks (Preparse.preparse ks) g (C14_parsed_trees_keep_all ks widths hw g herr hg hs)
+
+/-- NO COMMENT LOST, for parsed texts: the comments among the leaves of the document the formatter builds for an error-free, strict
+text are exactly the comments the trivia maps attach to its syntax tokens, each once, in token order — the class hypothesis of
+`C14_comments_in_order_parsed` is discharged by the shape invariant.  With `C14_format_rendered_content` these are the comment texts
+of the output at every width and indent; with `C14_file_leading_comments_are_the_unattached` the comments attached to no token are
+exactly the block written in front of it (`C13_trivia_accounting`: every comment is attached once or is in that block). -/
+theorem C14_no_comment_lost_parsed (ks : List Kind) (widths : List Nat) (hw : widths.length = ks.length) (g : Green)
+    (herr : (Grammar.parseTokens ks widths).errs = []) (hg : (Grammar.parseTokens ks widths).b.root = some g)
+    (hs : strictTree ⟨ks.toArray, Preparse.preparse ks⟩ g = true)
+    (hl : ∀ ti ∈ Preparse.syntaxIndices 0 ks, isComment ⟨ks.toArray, Preparse.preparse ks⟩ ti = false) :
+    (content ⟨ks.toArray, Preparse.preparse ks⟩ (formatS ks (Preparse.preparse ks) g)).filter
+        (isCommentItem ⟨ks.toArray, Preparse.preparse ks⟩) =
+      (Preparse.syntaxIndices 0 ks).flatMap (fun ti =>
+        triviaItems ⟨ks.toArray, Preparse.preparse ks⟩ (leadingTrivia ⟨ks.toArray, Preparse.preparse ks⟩ ti) ++
+        triviaItems ⟨ks.toArray, Preparse.preparse ks⟩ (trailingTrivia ⟨ks.toArray, Preparse.preparse ks⟩ ti)) := by
+  have hoof := (Grammar.parse_fuel (Grammar.mkEnv ks widths (Preparse.preparse ks)) ks.toArray
+    (Grammar.fuelBound (Preparse.preparse ks).tokenIndices.length) (by simp [Grammar.len, Grammar.mkEnv])).2
+  obtain ⟨g', g1, _, _, g4, _⟩ := Grammar.parse_tokens_spec ks widths hw (Grammar.fuelBound (Preparse.preparse ks).tokenIndices.length)
+  have : g' = g := Option.some.inj (g1.symm.trans hg)
+  subst this
+  exact C14_comments_in_order_parsed ks widths g' hg (g4 hoof)
+    (C14_parsed_trees_keep_all ks widths hw g' herr hg hs) hl
+
+/-- … and the syntax tokens among the leaves are the syntax tokens of the text in order modulo `norm` -/
+theorem C14_token_sequence_preserved_parsed_partial (ks : List Kind) (widths : List Nat) (hw : widths.length = ks.length) (g : Green)
+    (herr : (Grammar.parseTokens ks widths).errs = []) (hg : (Grammar.parseTokens ks widths).b.root = some g)
+    (hs : strictTree ⟨ks.toArray, Preparse.preparse ks⟩ g = true)
+    (hl : ∀ ti ∈ g.leaves, isComment ⟨ks.toArray, Preparse.preparse ks⟩ ti = false) :
+    (content ⟨ks.toArray, Preparse.preparse ks⟩ (cstToDoc ⟨ks.toArray, Preparse.preparse ks⟩ g)).filter
+        (fun it => !isCommentItem ⟨ks.toArray, Preparse.preparse ks⟩ it) =
+      g.leaves.flatMap (fun ti => (norm ⟨ks.toArray, Preparse.preparse ks⟩ (.tok ti)).toList) :=
+  C14_token_sequence_preserved_partial _ g (C14_parsed_trees_keep_all ks widths hw g herr hg hs) hl
+
+/-- THE LENIENT SHAPES (why `strictTree` is needed; findings C14-stray-comma, C14-assign-in-if, C14-assign-in-macro-arg, replayed on
+the real formatter by every check run).  The ported parser records NO error, the tree is not strict, not in `keepsAll`, and:
+`fn f(a,, /* c */ b){ a }` — the comment (token 8) of the second comma is not in the document;
+`let g = |a,, /* c */| a` — the comment (token 11) is not in the document;
+`fn f(x){ if (x) y = 2.0 }` — `=` and `2.0` (tokens 16, 18) are not in the document (the output is `if(x) y`);
+`fn f(x){ g!(x = 1.0) }` — every token is in the document, but the loop makes the `AssignExpr` child a second argument: the output
+`g!(x,  = 1.0)` has a comma the input does not have (erased by `norm`) and does not parse. -/
+theorem C14_lenient_shapes_lose_content :
+    (strictOf [.Function, .Whitespace, .Ident, .ParenBegin, .Ident, .Comma, .Comma, .Whitespace, .MultiLineComment, .Whitespace, .Ident,
+        .ParenEnd, .BlockBegin, .Whitespace, .Ident, .Whitespace, .BlockEnd, .Eof] [2, 1, 1, 1, 1, 1, 1, 1, 7, 1, 1, 1, 1, 1, 1, 1, 1, 0] = false ∧
+     observe [.Function, .Whitespace, .Ident, .ParenBegin, .Ident, .Comma, .Comma, .Whitespace, .MultiLineComment, .Whitespace, .Ident,
+        .ParenEnd, .BlockBegin, .Whitespace, .Ident, .Whitespace, .BlockEnd, .Eof] [2, 1, 1, 1, 1, 1, 1, 1, 7, 1, 1, 1, 1, 1, 1, 1, 1, 0] =
+      (0, false, [.idx 0, .idx 2, .idx 3, .idx 4, .idx 10, .idx 11, .brace, .idx 14, .idx 16],
+        [.idx 0, .idx 2, .idx 3, .idx 4, .idx 8, .idx 10, .idx 11, .brace, .idx 14, .idx 16])) ∧
+    (strictOf [.Let, .Whitespace, .Ident, .Whitespace, .Assign, .Whitespace, .LambdaArgBeginEnd, .Ident, .Comma, .Comma, .Whitespace,
+        .MultiLineComment, .LambdaArgBeginEnd, .Whitespace, .Ident, .Eof] [3, 1, 1, 1, 1, 1, 1, 1, 1, 1, 1, 7, 1, 1, 1, 0] = false ∧
+     observe [.Let, .Whitespace, .Ident, .Whitespace, .Assign, .Whitespace, .LambdaArgBeginEnd, .Ident, .Comma, .Comma, .Whitespace,
+        .MultiLineComment, .LambdaArgBeginEnd, .Whitespace, .Ident, .Eof] [3, 1, 1, 1, 1, 1, 1, 1, 1, 1, 1, 7, 1, 1, 1, 0] =
+      (0, false, [.idx 0, .idx 2, .idx 4, .idx 6, .idx 7, .idx 12, .idx 14],
+        [.idx 0, .idx 2, .idx 4, .idx 6, .idx 7, .idx 11, .idx 12, .idx 14])) ∧
+    (strictOf [.Function, .Whitespace, .Ident, .ParenBegin, .Ident, .ParenEnd, .BlockBegin, .Whitespace, .If, .Whitespace, .ParenBegin,
+        .Ident, .ParenEnd, .Whitespace, .Ident, .Whitespace, .Assign, .Whitespace, .Float, .Whitespace, .BlockEnd, .Eof]
+        [2, 1, 1, 1, 1, 1, 1, 1, 2, 1, 1, 1, 1, 1, 1, 1, 1, 1, 3, 1, 1, 0] = false ∧
+     observe [.Function, .Whitespace, .Ident, .ParenBegin, .Ident, .ParenEnd, .BlockBegin, .Whitespace, .If, .Whitespace, .ParenBegin,
+        .Ident, .ParenEnd, .Whitespace, .Ident, .Whitespace, .Assign, .Whitespace, .Float, .Whitespace, .BlockEnd, .Eof]
+        [2, 1, 1, 1, 1, 1, 1, 1, 2, 1, 1, 1, 1, 1, 1, 1, 1, 1, 3, 1, 1, 0] =
+      (0, false, [.idx 0, .idx 2, .idx 3, .idx 4, .idx 5, .brace, .idx 8, .idx 10, .idx 11, .idx 12, .idx 14, .idx 20],
+        [.idx 0, .idx 2, .idx 3, .idx 4, .idx 5, .brace, .idx 8, .idx 10, .idx 11, .idx 12, .idx 14, .idx 16, .idx 18, .idx 20])) ∧
+    (strictOf [.Function, .Whitespace, .Ident, .ParenBegin, .Ident, .ParenEnd, .BlockBegin, .Whitespace, .Ident, .MacroExpand, .ParenBegin,
+        .Ident, .Whitespace, .Assign, .Whitespace, .Float, .ParenEnd, .Whitespace, .BlockEnd, .Eof]
+        [2, 1, 1, 1, 1, 1, 1, 1, 1, 1, 1, 1, 1, 1, 1, 3, 1, 1, 1, 0] = false ∧
+     observe [.Function, .Whitespace, .Ident, .ParenBegin, .Ident, .ParenEnd, .BlockBegin, .Whitespace, .Ident, .MacroExpand, .ParenBegin,
+        .Ident, .Whitespace, .Assign, .Whitespace, .Float, .ParenEnd, .Whitespace, .BlockEnd, .Eof]
+        [2, 1, 1, 1, 1, 1, 1, 1, 1, 1, 1, 1, 1, 1, 1, 3, 1, 1, 1, 0] =
+      (0, false, [.idx 0, .idx 2, .idx 3, .idx 4, .idx 5, .brace, .idx 8, .idx 9, .idx 10, .idx 11, .idx 13, .idx 15, .idx 16, .idx 18],
+        [.idx 0, .idx 2, .idx 3, .idx 4, .idx 5, .brace, .idx 8, .idx 9, .idx 10, .idx 11, .idx 13, .idx 15, .idx 16, .idx 18])) := by
+  decide +kernel
+
+/-- … and the strict spelling of the first program is in the class (non-vacuity of `C14_parsed_trees_keep_all`):
+`fn f(a, /* c */ b){ a }` -/
+example : strictOf [.Function, .Whitespace, .Ident, .ParenBegin, .Ident, .Comma, .Whitespace, .MultiLineComment, .Whitespace, .Ident,
+      .ParenEnd, .BlockBegin, .Whitespace, .Ident, .Whitespace, .BlockEnd, .Eof] [2, 1, 1, 1, 1, 1, 1, 7, 1, 1, 1, 1, 1, 1, 1, 1, 0] = true ∧ observe [.Function, .Whitespace, .Ident, .ParenBegin, .Ident, .Comma, .Whitespace, .MultiLineComment, .Whitespace, .Ident,
+      .ParenEnd, .BlockBegin, .Whitespace, .Ident, .Whitespace, .BlockEnd, .Eof] [2, 1, 1, 1, 1, 1, 1, 7, 1, 1, 1, 1, 1, 1, 1, 1, 0] =
+    (0, true, [.idx 0, .idx 2, .idx 3, .idx 4, .idx 7, .idx 9, .idx 10, .brace, .idx 13, .idx 15],
+      [.idx 0, .idx 2, .idx 3, .idx 4, .idx 7, .idx 9, .idx 10, .brace, .idx 13, .idx 15]) := by decide +kernel
 
 end Mimium.CstPrint
 /-! ## "Same AST" reduced to "same syntax tokens and line-break oracle" (ported parser + ported lowering) -/
